@@ -60,9 +60,21 @@ fn call(b: Builder, m: &mut Model, slot: usize, c: usize) -> Builder {
     let relv = c.saturating_sub(8000);
     // seeds 9000..9005: texts with NUL bytes in them (the constructors store them as they are), and blobs that are
     // protocol packets (a DHCP ACK padded to the BOOTP minimum of 300 bytes, the same ending exactly at its END option)
-    let nul = (9000..9006).contains(&c);
-    let text = if nul { ["console=ttyS0\0root=/dev/sda1", "GRUB 2.12\0\0", "\0", "a\0", "\0\0x", "a\0b\0"][c - 9000].to_string() } else { text };
-    if nul {
+    let nul = (9000..9010).contains(&c);
+    let text = if nul { ["console=ttyS0\0root=/dev/sda1", "GRUB 2.12\0\0", "\0", "a\0", "\0\0x", "a\0b\0", "console=ttyS0 quiet ", " ", "x\t", "trailing\n"][c - 9000].to_string() } else { text };
+    if nul && c >= 9006 {
+        // an SMBIOS structure table: BIOS information (type 0) with two strings, system information (type 1), the
+        // end-of-table structure (type 127); 9006 / 9008 with bytes behind it
+        let mut t = vec![0u8, 0x18, 0x00, 0x00, 1, 2, 0x00, 0xE8, 3, 0, 0, 0, 0, 0, 0, 0, 0, 0, 0, 0, 0, 0, 0, 0];
+        t.extend_from_slice(b"SeaBIOS\0rel-1.16.2\004/01/2014\0\0");
+        t.extend_from_slice(&[1, 0x1B, 0x00, 0x01, 1, 2, 3, 0, 0, 0, 0, 0, 0, 0, 0, 0, 0, 0, 0, 0, 0, 0, 0, 0, 6, 0, 0]);
+        t.extend_from_slice(b"QEMU\0Standard PC\0pc-i440fx\0\0");
+        t.extend_from_slice(&[127, 4, 0x00, 0x7F, 0, 0]);
+        if c % 2 == 0 {
+            t.extend_from_slice(&[0xEE, 0x00, 0x55, 0xAA, 0, 0, 0, 1]);
+        }
+        blob = t;
+    } else if nul {
         let mut pkt = vec![0u8; 236];
         pkt[0] = 2; // BOOTREPLY
         pkt[1] = 1;
@@ -524,10 +536,10 @@ fn run(ctx: &mut Ctx) {
         }
     }
     // texts with NUL bytes in them and protocol packets as blobs: stored as supplied
-    ctx.bound("nul_texts_and_packets", "command line, loader name and module with the texts {\"console=ttyS0<NUL>root=/dev/sda1\", \"GRUB 2.12<NUL><NUL>\", \"<NUL>\", \"a<NUL>\", \"<NUL><NUL>x\", \"a<NUL>b<NUL>\"}; network, SMBIOS, custom and ELF-sections tags holding a DHCP ACK (BOOTP header, magic cookie, options, END) padded with zeros to 300 bytes and ending exactly at END: each alone, between two other tags, and all text kinds together");
+    ctx.bound("nul_texts_and_packets", "command line, loader name and module with the texts {\"console=ttyS0<NUL>root=/dev/sda1\", \"GRUB 2.12<NUL><NUL>\", \"<NUL>\", \"a<NUL>\", \"<NUL><NUL>x\", \"a<NUL>b<NUL>\"} and with texts ending in a space, a tab, a line feed; network, SMBIOS, custom and ELF-sections tags holding a DHCP ACK (BOOTP header, magic cookie, options, END) padded with zeros to 300 bytes and ending exactly at END, and an SMBIOS structure table (types 0, 1, 127 with their string sets) with and without bytes behind the end-of-table structure: each alone, between two other tags, and all text kinds together");
     {
         let mut progs: Vec<Vec<(usize, usize)>> = vec![];
-        for v in 9000..9006usize {
+        for v in 9000..9010usize {
             for slot in [0usize, 1, 2, 16, 12, 21, 8] {
                 progs.push(vec![(slot, v)]);
                 progs.push(vec![(3, 1), (slot, v), (20, 1)]);
@@ -536,6 +548,23 @@ fn run(ctx: &mut Ctx) {
         }
         for prog in progs {
             let describe = || J::obj().set("part", "nul-texts-and-packets").set("calls", J::Arr(prog.iter().map(|(s, c)| J::from(format!("{}#{}", SLOT_NAMES[*s], c))).collect()));
+            ctx.leaf(describe, |ctx| {
+                ctx.state_direct();
+                ctx.nontrivial();
+                run_program(ctx, &prog, &|| format!("calls {:?}", prog));
+            });
+        }
+    }
+    // many minimal tags: structures made of 8-, 12- and 16-byte tags only (the smallest average tag size possible)
+    ctx.bound("small_tags", "every subset of {EFI boot services (8 bytes), EFI 32-bit table (12), EFI 64-bit table (16), image handle 32 / 64, load base (12), basic memory info (16)} x 0..=6 custom tags with an empty payload (8 bytes each)");
+    for mask in 0..128usize {
+        for k in 0..=6usize {
+            let slots = [17usize, 10, 11, 18, 19, 20, 3];
+            let mut prog: Vec<(usize, usize)> = slots.iter().enumerate().filter(|(i, _)| mask >> i & 1 == 1).map(|(_, s)| (*s, 1usize)).collect();
+            for j in 0..k {
+                prog.push((21, 1000 + j));
+            }
+            let describe = || J::obj().set("part", "small-tags").set("calls", J::Arr(prog.iter().map(|(s, c)| J::from(format!("{}#{}", SLOT_NAMES[*s], c))).collect()));
             ctx.leaf(describe, |ctx| {
                 ctx.state_direct();
                 ctx.nontrivial();
